@@ -4,6 +4,8 @@
     fiber <status> <noUseval> <noSkip> <frame> <stackstart> <stacktop> <maxstack> {7 numbers per frame record}
                                                   -> "inv=<acc|rej> src=<acc|rej>"  (all checks = the invariant / checks of the current source)
     function <len> <def envs> <indices...>        -> "inv=<acc|rej> src=<acc|rej>"  (acceptFunction: header count vs def, environment indices ≥ -1)
+    envvalid <offset> <length> <frame> {<prevframe> <envIsThis> <hasFunc> <slotcount>}*  -> "<result> <offset> <length>" (model of janet_env_valid)
+    envvalidshape                                 -> "true" | "false"
     nanbox                                        -> "ok=<NB.ok> nan=<bits> safe=<bool>"   (NaN-boxing constants of the current source)
     nanbox <w decimal>                            -> "<bits of the Janet unmarshal_one makes of LB_REAL w> <janet_type> <mask of types passing janet_checktype>"
     pegrows                                       -> global flags + opcode numbers whose verifier row does not cover peg_rule
@@ -27,6 +29,7 @@ import JanetModel.Gen.PegAccess
 import JanetModel.Unmarsh.BytesCfg
 import JanetModel.Bytecode.GuardObligations
 import JanetModel.Gen.NanBox
+import JanetModel.Gen.EnvValid
 open Driver JanetModel.Bytecode JanetModel.Gen.VmAccess JanetModel.Unmarsh
 
 def allChecks : Checks :=
@@ -84,6 +87,25 @@ def step (_ : Unit) (toks : List String) : Unit × String :=
     let bad := C.sites.bad ++ (if C.refChecked then [] else ["lookup[len]"]) ++ (if C.envRefChecked then [] else ["lookup_envs[index]"]) ++
       (if C.defRefChecked then [] else ["lookup_defs[index]"])
     ((), if bad.isEmpty then "ok" else "bad " ++ " ".intercalate bad)
+  | "envvalid" :: off :: len :: frame :: recs =>
+    -- envvalid <offset (signed)> <length> <fiber->frame> {<prevframe> <envIsThis> <hasFunc> <slotcount>}*  (frames top-most first)
+    let rec parse : List Nat → Option (List JanetModel.Unmarsh.EnvValid.EFrame)
+      | [] => some []
+      | p :: e :: f :: sc :: rest =>
+        match parse rest with
+        | some fs => some ({ hdr := { entrance := false, prevframe := p, pcdiff := 0, slotcount := sc, bclen := 1, atCall := true, aIsSlot := true },
+                             envIsThis := e != 0, hasFunc := f != 0 } :: fs)
+        | none => none
+      | _ => none
+    match off.toInt?, len.toNat?, frame.toNat?, allNat recs with
+    | some off, some len, some frame, some ns =>
+      match parse ns with
+      | some fs =>
+        let r := JanetModel.Unmarsh.EnvValid.envValid JanetModel.Gen.EnvValid.shape off len fs frame
+        ((), s!"{if r.1 then 1 else 0} {r.2.1} {r.2.2}")
+      | none => ((), "bad-op")
+    | _, _, _, _ => ((), "bad-op")
+  | ["envvalidshape"] => ((), toString JanetModel.Gen.EnvValid.shape.allOn)
   | ["nanbox"] =>
     let N := JanetModel.Gen.NanBox.nb
     ((), s!"ok={N.ok} nan={N.nanBits} safe={N.safe}")
